@@ -137,6 +137,9 @@ func (p *Prog) LockWrappers() (acq map[string][2]string, rel map[string]string) 
 				}
 			}
 		}
+		for k := range f.Graph().DeferredUnlocks() {
+			delete(common, k)
+		}
 		for k, m := range common {
 			acq[ObjID(f.Obj)] = [2]string{k, string(m)}
 		}
